@@ -126,6 +126,8 @@ def run_unit(repo, unit, default_cfg_factory, timeout_ms=10000):
             for ob in o["cases"]:
                 t1 = time.time()
                 r = None
+                if z3.is_true(ob.formula):
+                    continue
                 # stage 1: e-matching only (fast `unsat` whenever instances suffice); stage 2: full
                 # (model-based instantiation) to obtain `sat` with a counter-model
                 for stage in (0, 1, 2):
@@ -179,7 +181,18 @@ def run_unit(repo, unit, default_cfg_factory, timeout_ms=10000):
     return res
 
 
+_HQ = {}
+_SQ = {}
+
+
 def has_quantifier(f):
+    k = f.get_id()
+    if k not in _HQ:
+        _HQ[k] = (f, _has_quantifier(f))       # keep f alive so ids are not reused
+    return _HQ[k][1]
+
+
+def _has_quantifier(f):
     seen = set()
     work = [f]
     while work:
@@ -198,6 +211,15 @@ def has_quantifier(f):
 
 def strip_quantified(f):
     """Drop quantified conjuncts of a hypothesis (weakening it): None if nothing is left."""
+    k = f.get_id()
+    if k in _SQ:
+        return _SQ[k][1]
+    r = _strip_quantified(f)
+    _SQ[k] = (f, r)
+    return r
+
+
+def _strip_quantified(f):
     if not has_quantifier(f):
         return f
     if z3.is_and(f):
